@@ -65,17 +65,40 @@ structure Dyn where
 /-- a Go `string` in an `any` -/
 def Dyn.ofString (s : String) : Dyn := ⟨"string", .str s⟩
 
-/-- one constant of the definition file: `name Ty = val`, with or without a `Deprecated:` doc line -/
+/-- how `traits.go` classifies the type of a trait column (`extractUnderlying`): a string-kinded
+named type (`types.String`; an UNTYPED string constant is not in the switch and needs no cast),
+a signed / unsigned integer kind of some width, or nothing the template has a decoder branch for
+(bool, untyped rune, …) -/
+inductive Family where
+  | ustr
+  | nstr
+  | sint (bits : Nat)
+  | uint (bits : Nat)
+  | none
+  deriving DecidableEq, Repr
+
+/-- a trait column as declared on the line of the lowest value: trait name (leading `_`
+trimmed), dynamic type of its constants, family -/
+structure TraitCol where
+  name : String
+  ty : String
+  fam : Family
+  deriving DecidableEq, Repr
+
+/-- one constant of the definition file: `name Ty = val`, with or without a `Deprecated:` doc
+line; `tvals` are the trait constants written on the same line (column order; empty = none) -/
 structure Const where
   name : String
   ty : String
   val : Int
   deprecated : Bool
+  tvals : List Scalar := []
   deriving DecidableEq, Repr
 
 structure TypeDecl where
   name : String
   kind : IntKind
+  cols : List TraitCol := []
   deriving DecidableEq, Repr
 
 /-- a definition file: the enum types named by `-types` and ALL its constants in source order -/
@@ -86,6 +109,11 @@ structure FileDef where
 
 structure Options where
   caseInsensitive : Bool := false
+  json : Bool := true
+  yaml : Bool := true
+  text : Bool := true
+  /-- `-parsableByTraits` -/
+  parsable : List String := []
   deriving DecidableEq, Repr
 
 /-! ## the generator -/
@@ -98,6 +126,8 @@ structure Value where
   signed : Bool
   deprecated : Bool
   val : Int
+  /-- the trait expressions of `astLine` (column order) -/
+  tvals : List Scalar := []
   deriving DecidableEq, Repr
 
 def two64 : Nat := 18446744073709551616
@@ -111,7 +141,7 @@ def asI64 (u : Nat) : Int := if u < two63 then (u : Int) else (u : Int) - (two64
 
 /-- `constant.Uint64Val(v.Val())` and the fields around it (`generate.go:72-80`) -/
 def Value.ofConst (c : Const) : Value :=
-  { name := c.name, value := toU64 c.val, signed := decide (c.val < 0), deprecated := c.deprecated, val := c.val }
+  { name := c.name, value := toU64 c.val, signed := decide (c.val < 0), deprecated := c.deprecated, val := c.val, tvals := c.tvals }
 
 /-- `Value.Less` -/
 def Value.less (v w : Value) : Bool :=
@@ -309,5 +339,278 @@ structure Accepted (f : FileDef) (t : String) (k : IntKind) : Prop where
   kind : k.WF
   inRange : InRangeConsts f t k
   names : NamesDistinct f
+
+/-! # Part 2 (properties C05, C12): traits and codecs
+
+Mirrors `extractTraitDescs`, the per-line instance loop, `processDuplicates`,
+`validateParsableTraits`, `sort.Sort(traits)` (`generate.go:88-287`), the family selection of
+`traits.go`, and the template: accessor switch (lines 31-44), trait constants inside the `Parse`
+switch (99-108), `Marshal*`/`Unmarshal*` (132-355). Current tree = all `Quirks` off; the pinned
+algorithms are the `Quirks` switched on, kept for the witness theorems.
+
+Not modelled: float families, types that bring their own unmarshaler ("native parsing"; a trait
+whose type is an enum generated IN THE SAME RUN is not such a type — its methods do not exist
+yet when the generator inspects it — and falls in its integer family), import aliasing. -/
+
+/-- deviations of the pinned commit from the current tree -/
+structure Quirks where
+  /-- YAML numeric fallbacks guarded by `err != nil` -/
+  yamlGuardInverted : Bool := false
+  /-- `processDuplicates` drops the non-primary trait rows only for groups it warns about -/
+  dropRowsOnlyUnsafe : Bool := false
+  /-- the `Parse` switch takes `index $trait.Traits $j` instead of the row of the value's own line -/
+  parseRowsByIndex : Bool := false
+  /-- numeric fallbacks convert `T(x)` without checking that `x` fits `T` -/
+  noRangeGuard : Bool := false
+  deriving DecidableEq, Repr
+
+/-- one `case Owner: return <constant>` row of a trait -/
+structure TraitRow where
+  owner : Value
+  dyn : Dyn
+  deriving DecidableEq, Repr
+
+/-- `gen.TraitDesc` -/
+structure TraitDesc where
+  name : String
+  ty : String
+  fam : Family
+  parsable : Bool
+  rows : List TraitRow
+  deriving Repr
+
+inductive GenFailure where
+  /-- generator: "has inconsistent trait definitions" / "has invalid trait definitions" -/
+  | inconsistentTraits
+  /-- generator: "parsableByTrait values must be unique within the enum" -/
+  | parsableNotUnique
+  /-- template execution: `index $trait.Traits $j` out of range -/
+  | templateIndex
+  /-- the generated file does not compile: duplicate constant in a `switch` -/
+  | dupCase
+  deriving DecidableEq, Repr
+
+/-- `Values.getPrimary`: the first non-deprecated entry (else the first), and whether the group
+is "safe" (a single entry, or all others deprecated) -/
+def getPrimaryLoop (primary : Value) : List Value → Value × Bool
+  | [] => (primary, !primary.deprecated)
+  | v :: rest =>
+    if primary.deprecated && !v.deprecated then getPrimaryLoop v rest
+    else if !primary.deprecated && !v.deprecated then (primary, false)
+    else getPrimaryLoop primary rest
+
+def getPrimary : List Value → Option (Value × Bool)
+  | [] => none
+  | [v] => some (v, true)
+  | v :: rest => some (getPrimaryLoop v rest)
+
+/-- the rows of trait column `j`: every value (sorted order) whose line has a `j`-th trait
+expression (`extractTraitDescs` takes the first, the instance loop appends and re-sorts the others) -/
+def rowsOf (vs : List Value) (j : Nat) (ty : String) : List TraitRow :=
+  vs.filterMap (fun v => (v.tvals[j]?).map (fun s => ⟨v, ⟨ty, s⟩⟩))
+
+/-- the validation at the end of `extractTraitDescs` -/
+def traitsConsistent (vs : List Value) (n : Nat) : Bool :=
+  let found := (vs.filter (fun v => v.tvals.length == n)).map (·.value)
+  vs.all (fun v => found.contains v.value || !(v.tvals.length > 0))
+
+/-- `processDuplicates`: which rows survive -/
+def keepRow (q : Quirks) (vs : List Value) (r : TraitRow) : Bool :=
+  match getPrimary (vs.filter (fun v => v.value == r.owner.value)) with
+  | none => true
+  | some (primary, safe) =>
+    if q.dropRowsOnlyUnsafe && safe then true
+    else !(r.owner.value == primary.value && r.owner.name != primary.name)
+
+/-- `validateParsableTraits`: a parsable trait constant may belong to one value only -/
+def parsableUnique (ts : List TraitDesc) : Bool :=
+  let rows := (ts.filter (·.parsable)).flatMap (·.rows)
+  rows.all (fun r => rows.all (fun r' => !(r.dyn == r'.dyn) || r.owner.name == r'.owner.name))
+
+/-- insertion sort of the trait descriptions by name (`sort.Sort(traits)`; names are distinct) -/
+def insertTrait (t : TraitDesc) : List TraitDesc → List TraitDesc
+  | [] => [t]
+  | u :: us => if t.name < u.name then t :: u :: us else u :: insertTrait t us
+
+def sortTraits (ts : List TraitDesc) : List TraitDesc := ts.foldr insertTrait []
+
+/-- the trait part of `Generate.Parse` for one type -/
+def genTraits (q : Quirks) (o : Options) (cols : List TraitCol) (vs : List Value) : Except GenFailure (List TraitDesc) :=
+  match vs with
+  | [] => .ok []
+  | first :: _ =>
+    let cols := cols.take first.tvals.length
+    if !traitsConsistent vs cols.length then .error .inconsistentTraits
+    else if cols.isEmpty then .ok []
+    else
+      let ts := (List.range cols.length).zip cols |>.map (fun (j, c) =>
+        ({ name := c.name, ty := c.ty, fam := c.fam, parsable := o.parsable.contains c.name,
+           rows := (rowsOf vs j c.ty).filter (keepRow q vs) } : TraitDesc))
+      if !parsableUnique ts then .error .parsableNotUnique
+      else .ok (sortTraits ts)
+
+/-- everything the template renders for one enum type -/
+structure GenFull where
+  base : GenOut
+  traits : List TraitDesc
+  deriving Repr
+
+/-- `TraitDesc.InstanceOf` -/
+def TraitDesc.instanceOf (t : TraitDesc) (v : Value) : Option TraitRow :=
+  t.rows.find? (fun r => r.owner.name == v.name)
+
+/-- the constant a parsable trait contributes to the `case` of the `j`-th value -/
+def traitCaseOne (q : Quirks) (j : Nat) (v : Value) (t : TraitDesc) : Except GenFailure (List Dyn) :=
+  if q.parseRowsByIndex then
+    match t.rows[j]? with
+    | some r => .ok [r.dyn]
+    | none => .error .templateIndex
+  else
+    match t.instanceOf v with
+    | some r => .ok [r.dyn]
+    | none => .ok []
+
+/-- the trait constants of the `case` of the `j`-th value -/
+def traitCaseConsts (q : Quirks) (ts : List TraitDesc) (j : Nat) (v : Value) : Except GenFailure (List Dyn) :=
+  ((ts.filter (fun t => t.parsable)).mapM (traitCaseOne q j v)).map List.flatten
+
+def parseCases (q : Quirks) (ts : List TraitDesc) (vs : List Value) : Except GenFailure (List ParseCase) :=
+  ((List.range vs.length).zip vs).mapM (fun (j, v) =>
+    (traitCaseConsts q ts j v).map (fun cs => (⟨Dyn.ofString v.name :: cs, v⟩ : ParseCase)))
+
+/-- duplicate constants among the cases of one generated `switch` = compile error -/
+def hasDupCase (g : GenFull) : Bool :=
+  !(g.base.cases.flatMap (·.consts)).Nodup ||
+  g.traits.any (fun t => !(t.rows.map (·.owner.val)).Nodup) ||
+  g.base.dupLowerCase
+
+/-- generator + template + compiler for enum type `t` of file `f` -/
+def genFullQ (q : Quirks) (o : Options) (f : FileDef) (t : TypeDecl) : Except GenFailure GenFull := do
+  let vs := sortValues ((collect f t.name).map Value.ofConst)
+  let ts ← genTraits q o t.cols vs
+  let cases ← parseCases q ts vs
+  let g : GenFull := { base := { renderWith dedup o t.name vs with cases := cases }, traits := ts }
+  if hasDupCase g then .error .dupCase else .ok g
+
+def genFull (o : Options) (f : FileDef) (t : TypeDecl) : Except GenFailure GenFull := genFullQ {} o f t
+
+/-! ## meaning of the generated accessors and codecs -/
+
+/-- `*new(T)` -/
+def zeroOf (ty : String) (fam : Family) (sample : Option Scalar) : Dyn :=
+  match fam, sample with
+  | .ustr, _ | .nstr, _ => ⟨ty, .str ""⟩
+  | .sint _, _ | .uint _, _ => ⟨ty, .int 0⟩
+  | .none, some (.bool _) => ⟨ty, .bool false⟩
+  | .none, some (.int _) => ⟨ty, .int 0⟩
+  | .none, some (.str _) => ⟨ty, .str ""⟩
+  | .none, _ => ⟨ty, .other "zero"⟩
+
+/-- the trait accessor: first row whose owner equals `e`, else the zero value -/
+def TraitDesc.get (t : TraitDesc) (e : Int) : Dyn :=
+  match t.rows.find? (fun r => r.owner.val == e) with
+  | some r => r.dyn
+  | none => zeroOf t.ty t.fam (t.rows.head?.map (·.dyn.v))
+
+/-- `strconv.ParseUint(s, 10, 64)`: digits only (no sign, no underscore), value below 2^64 -/
+def parseUintLit (s : String) : Option Int :=
+  let cs := s.toList
+  if cs.isEmpty then none
+  else if cs.all Char.isDigit then
+    let n : Nat := cs.foldl (fun acc c => acc * 10 + (c.toNat - 48)) 0
+    if n < two64 then some (n : Int) else none
+  else none
+
+/-- `strconv.ParseInt(s, 10, 64)`: optional sign, digits, int64 range -/
+def parseIntLit (s : String) : Option Int :=
+  let cs := s.toList
+  let p : Bool × List Char := match cs with
+    | '-' :: r => (true, r)
+    | '+' :: r => (false, r)
+    | r => (false, r)
+  if p.2.isEmpty then none
+  else if p.2.all Char.isDigit then
+    let n : Nat := p.2.foldl (fun acc c => acc * 10 + (c.toNat - 48)) 0
+    let v : Int := if p.1 then -(n : Int) else (n : Int)
+    if v < -(two63 : Int) || v ≥ (two63 : Int) then none else some v
+  else none
+
+/-- Go's conversion of an `int64`/`uint64` to an integer type of `bits` bits -/
+def wrapTo (signed : Bool) (bits : Nat) (x : Int) : Int :=
+  let m : Int := (2 : Int) ^ bits
+  let r := x % m
+  if signed && r ≥ m / 2 then r - m else r
+
+/-- a scalar JSON document (non-null): a string, an integer literal, anything else -/
+inductive JDoc where
+  | str (s : String)
+  | num (i : Int)
+  | other
+  deriving DecidableEq, Repr
+
+def firstSome {α : Type} : List (Option α) → Option α
+  | [] => none
+  | some a :: _ => some a
+  | none :: r => firstSome r
+
+/-- the numeric fallback of one family: `if v := T(x); int64(v) == x { Parse(v) }` per trait -/
+def numericTry (q : Quirks) (g : GenFull) (signed : Bool) (x : Int) : Option Int :=
+  firstSome ((g.traits.filter (fun t => t.parsable && (match t.fam with
+      | .sint _ => signed | .uint _ => !signed | _ => false))).map (fun t =>
+    let bits := match t.fam with | .sint b => b | .uint b => b | _ => 64
+    let v := wrapTo signed bits x
+    if q.noRangeGuard || v == x then g.base.parse ⟨t.ty, .int v⟩ else none))
+
+/-- the string fallbacks: `Parse(s)`, then `Parse(T(s))` for every parsable string-kinded trait -/
+def stringTry (g : GenFull) (s : String) : Option Int :=
+  match g.base.parse (Dyn.ofString s) with
+  | some v => some v
+  | none => firstSome ((g.traits.filter (fun t => t.parsable && t.fam == .nstr)).map (fun t =>
+      g.base.parse ⟨t.ty, .str s⟩))
+
+/-- `UnmarshalJSON` -/
+def GenFull.unmarshalJSON (q : Quirks) (g : GenFull) : JDoc → Option Int
+  | .str s => stringTry g s
+  | .num i =>
+    let u := if 0 ≤ i ∧ i < (two64 : Int) then numericTry q g false i else none
+    match u with
+    | some v => some v
+    | none => if -(two63 : Int) ≤ i ∧ i < (two63 : Int) then numericTry q g true i else none
+  | .other => none
+
+/-- `UnmarshalText` -/
+def GenFull.unmarshalText (g : GenFull) (text : String) : Option Int := stringTry g text
+
+/-- `UnmarshalYAML` on a scalar node with `Value = text` -/
+def GenFull.unmarshalYAML (q : Quirks) (g : GenFull) (text : String) : Option Int :=
+  match stringTry g text with
+  | some v => some v
+  | none =>
+    let hasU := g.traits.any (fun t => t.parsable && (match t.fam with | .uint _ => true | _ => false))
+    let hasS := g.traits.any (fun t => t.parsable && (match t.fam with | .sint _ => true | _ => false))
+    let u :=
+      if !hasU then none
+      else match parseUintLit text, q.yamlGuardInverted with
+        | some x, false => numericTry q g false x
+        | none, true => numericTry q g false 0      -- `uinter64` is 0 when ParseUint failed
+        | _, _ => none
+    match u with
+    | some v => some v
+    | none =>
+      if !hasS then none
+      else match parseIntLit text, q.yamlGuardInverted with
+        | some x, false => numericTry q g true x
+        | none, true => numericTry q g true 0
+        | _, _ => none
+
+/-- `MarshalJSON` / `MarshalText` / `MarshalYAML`: all three emit `String()` -/
+def GenFull.marshal (g : GenFull) (e : Int) : String := g.base.string e
+
+/-! ## specification for C05 / C12 -/
+
+/-- the trait constant written on the PRIMARY definition line of value `e`, column `j` -/
+def DeclaredTrait (f : FileDef) (t : TypeDecl) (j : Nat) (e : Int) (d : Dyn) : Prop :=
+  ∃ c ∈ f.consts, c.ty = t.name ∧ c.val = e ∧ IsPrimary f t.name e c.name ∧
+    ∃ col, t.cols[j]? = some col ∧ ∃ s, c.tvals[j]? = some s ∧ d = ⟨col.ty, s⟩
 
 end Genum
